@@ -378,3 +378,28 @@ func (h *harness) parseStream(n int) {
 func (h *harness) implOnlyText(doc, re any, desc map[string]any) {
 	h.ctx.Violate("written bag data does not parse back to JSON data of the modelled kinds", desc, show(re), show(doc))
 }
+
+// floatStream: documents with float64 values of every shape (integral, huge, tiny) through every writer; the
+// result is judged on the implementation alone, with bag-compare as the equality of bags.
+func (h *harness) floatStream() {
+	ctx := h.ctx
+	floats := []float64{0, 1, -2, 1500, 1e5, 999999, 1e6, 1e15, 123456789, -0.5, 0.1, 1e-7, 1e21, 1e100, 1.7976931348623157e308, 5e-324, 2.5, 1234567.5}
+	for i, f := range floats {
+		doc := []any{f, map[string]any{"f": f}}
+		for _, wo := range writeOpts {
+			if (i+len(wo.args))%3 != 0 {
+				continue
+			}
+			scope := slip.NewScope()
+			scope.Let(slip.Symbol("b"), newBag(deepCopy(doc)))
+			src := "(bag-compare b (make-bag (bag-write b " + wo.args + ")))"
+			out := common.EvalIn(scope, src)
+			ctx.Meta.Evaluations++
+			ctx.Hist("float-roundtrip")
+			if out.Err != "" || out.Value != nil {
+				ctx.Violate("a bag with a float differs from the bag parsed from its own text (bag-compare)", map[string]any{"doc": show(doc), "lisp": src},
+					common.ShowOutcome(out), "nil")
+			}
+		}
+	}
+}
